@@ -34,6 +34,9 @@
 # define __CPROVER_ensures(x)
 # define __CPROVER_assigns(...)
 # define __CPROVER_frees(...)
+# define __CPROVER_same_object(a, b) 1
+# define __CPROVER_POINTER_OFFSET(p) ((size_t) (p))
+# define __CPROVER_object_whole(p) (p)
 # define __CPROVER_assume(x) do { if (!(x)) { printf("REPLAY-ASSUMPTION-FALSE %s\n", #x); exit(3); } } while (0)
 # define __CPROVER_assert(x, msg) do { if (!(x)) { printf("REPRODUCED %s\n", msg); vr_failed = 1; } } while (0)
 # define RET vr_ret
@@ -71,6 +74,21 @@ static void vr_load(void *p, size_t n, int argc, char **argv)
 # define HARNESS_INPUTS(type, var) type var = nondet_##var()
 # define HARNESS_BEGIN void harness(void) {
 # define HARNESS_END   }
+#endif
+
+/* The raw trace/error sinks of core (corelib_trace.c) write to stdio; they have no
+   effect on library state.  Bodies are needed because DFCC turns a call to an
+   undefined function into assert(false)+assume(false), which would cut every
+   path that traces. */
+#if defined(VERIF_CBMC) && !defined(VERIF_NO_TRACE_STUBS)
+void _psTrace(const char *msg) { }
+void _psTraceInt(const char *msg, int val) { }
+void _psTraceStr(const char *msg, const char *val) { }
+void _psTracePtr(const char *message, const void *value) { }
+void psTraceBytes(const char *tag, const unsigned char *p, int l) { }
+void _psError(const char *msg) { }
+void _psErrorInt(const char *msg, int val) { }
+void _psErrorStr(const char *msg, const char *val) { }
 #endif
 
 /* a postcondition that must FAIL; the driver builds a twin of every unit with
